@@ -115,7 +115,7 @@ type detParams struct {
 	obMaxPart  uint64
 	obBatch    uint64
 	obRequeue  uint64
-	promoterOf int // account that is registered as reward promoter
+	promoterOf int   // account that is registered as reward promoter
 	govPeriod  int64 // x/gov voting period in seconds
 }
 
@@ -802,6 +802,7 @@ type detRun struct {
 	// restarted replica
 	restarts   int
 	restartErr string
+	simulated  int     // messages executed in simulations (simulating replica)
 	dump       []detKV // contents of the store opts.dumpStore after the Commit of height opts.dumpAt
 }
 
@@ -811,6 +812,7 @@ type detKV struct{ k, v string }
 type detOpts struct {
 	alt       bool   // wager tickets with the all_odds list reversed
 	restart   bool   // stop and start the application (Env.Restart) at the boundaries hd.restarts
+	simulate  bool   // serve a simulation (gas estimation) of every transaction of a block before the block is executed
 	dumpAt    int64  // dump the store dumpStore after the Commit of this height (0: never)
 	dumpStore string //
 }
@@ -966,6 +968,11 @@ func execDet(hd *detHist, opts detOpts) *detRun {
 	for bi, blk := range hd.blocks {
 		height++
 		hdr := tmproto.Header{Height: height, Time: time.Unix(blk.time, 0).UTC(), AppHash: app.LastCommitID().Hash}
+		if opts.simulate {
+			d.simulated += simulateBlock(app.NewContext(true, hdr), func(msg sdk.Msg) func(ctx sdk.Context, req sdk.Msg) (*sdk.Result, error) {
+				return app.MsgServiceRouter().Handler(msg)
+			}, blk.msgs, func(m *detMsg) sdk.Msg { return m.fresh(alt, app.InterfaceRegistry()) })
+		}
 		d.add("block", "block", "b %d %d %d", height, blk.time, len(blk.msgs))
 		var bb abci.ResponseBeginBlock
 		if what := detHalt(func() { bb = app.BeginBlock(abci.RequestBeginBlock{Header: hdr}) }); what != "" {
@@ -1263,11 +1270,13 @@ func runDeterminism(seed uint64, n int, out *Out) {
 		d2 := execDet(hd, detOpts{})
 		d3 := execDet(hd, detOpts{alt: true})
 		d4 := execDet(hd, detOpts{restart: true})
+		d5 := execDet(hd, detOpts{simulate: true})
 		all = append(all, kept{h, d1.recs})
 		out.Count("histories")
 		out.Stats["blocks"] += int64(len(hd.blocks))
 		out.Stats["events"] += int64(d1.events)
-		out.Stats["executions.in-process"] += 4
+		out.Stats["executions.in-process"] += 5
+		out.Stats["simulating-replica.handler-runs-in-simulations"] += int64(d5.simulated)
 		out.Stats["restarts"] += int64(d4.restarts)
 		for _, rb := range hd.restarts {
 			if rb < 0 {
@@ -1334,6 +1343,17 @@ func runDeterminism(seed uint64, n int, out *Out) {
 		} else if ia, ib := firstDiff(d1.recs, d4.recs, nil); ia != -2 {
 			out.Fail(MonFail{Property: "C15", Monitor: "replica_agreement", Class: "restarted-replica-differs", History: h,
 				Detail: restartDetail(hd, d1, d4, ia, ib)})
+		}
+		// (6) simulating replica: the same blocks, every transaction first simulated on the check state
+		if ia, ib := firstDiff(d1.recs, d5.recs, nil); ia != -2 {
+			cls, det := classify(d1.recs, d5.recs, ia, ib)
+			i := ia
+			if i < 0 {
+				i = ib
+			}
+			out.Fail(MonFail{Property: "C15", Monitor: "replica_agreement", Class: "simulating-replica-differs", History: h,
+				Detail: fmt.Sprintf("the replica that served a simulation of every transaction before executing the block disagrees with the replica that served none; in block %d: %s, %s",
+					heightOf(d1.recs, i), cls, det)})
 		}
 		// (4) reversed all_odds lists: state and events are those of the original tickets
 		if ia, ib := firstDiff(d1.recs, d3.recs, appKinds); ia != -2 {
